@@ -75,6 +75,11 @@ def elementwise_mul_scale(input_scale, input2_scale, output_scale):
 
 # Simplified version of calculating elementwise Add/Sub scales
 def simplified_elementwise_add_sub_scale(input1_scale, input2_scale, output_scale, input_shift=16):
+    # The reference kernels derive these values in double. The scales arrive as float32 and arithmetic of a float32 with a
+    # Python number stays float32 (NumPy >= 2), so they are widened first
+    input1_scale = float(input1_scale)
+    input2_scale = float(input2_scale)
+    output_scale = float(output_scale)
     max_input_scale = max(input1_scale, input2_scale)
 
     input1_rescale = input1_scale * (1 << input_shift) / (2 * max_input_scale)
